@@ -564,6 +564,63 @@ func runC08ManyHandshakes(c *ev.Case, ctx *lib.Ctx, P int, subscribed bool) {
 	c.Event("many_handshake_scenarios", 1)
 }
 
+// runC08StalledWriter: the handler of connection 0 is blocked writing an answer to a peer that
+// has stopped reading (the transport's Write does not return); the other connections' handlers
+// write answers of the same size to peers that do read.  All of their messages are dispatched
+// and answered.
+func runC08StalledWriter(c *ev.Case, ctx *lib.Ctx, K, per, size int, viaMux bool) {
+	sig := func(op string) ev.Sig { return ev.Sig{"op": op, "suite": "stalled-writer"} }
+	payload := bytes.Repeat([]byte{0x5a}, size)
+	hf := diam.HandlerFunc(func(dc diam.Conn, m *diam.Message) {
+		a := m.Answer(2001)
+		a.NewAVP(9001, 0x40, 0, datatype.OctetString(payload))
+		a.WriteTo(dc)
+	})
+	var h diam.Handler = hf
+	if viaMux {
+		mux := diam.NewServeMux()
+		mux.Handle("ALL", hf)
+		h = mux
+	}
+	srv := &diam.Server{Handler: h, Dict: ctx.Parser}
+	ln := memnet.NewListener()
+	go srv.Serve(ln)
+	conns := make([]*memnet.Conn, K)
+	for i := range conns {
+		conns[i] = memnet.NewConn()
+		conns[i].Remote = memnet.Addr{Net: "tcp", Str: fmt.Sprintf("10.0.0.%d:1000", i+1)}
+		ln.Offer(conns[i])
+	}
+	conns[0].Script = func(seq int, b []byte) memnet.Outcome {
+		return memnet.Outcome{Accept: -1, StallAt: len(b) / 3, UntilClosed: true}
+	}
+	defer func() {
+		for i := range conns {
+			conns[i].FeedEOF()
+			conns[i].Close()
+		}
+		ln.Close()
+		synctest.Wait()
+	}()
+	conns[0].Feed(c08Msg(0, 1, 12, false))
+	synctest.Wait()
+	for s := 1; s <= per; s++ {
+		for i := 1; i < K; i++ {
+			conns[i].Feed(c08Msg(i, uint32(s), c08Body(i, s), false))
+		}
+	}
+	synctest.Wait()
+	for i := 1; i < K; i++ {
+		msgs, rest := peer.SplitMessages(conns[i].Written())
+		if len(msgs) != per || len(rest) != 0 {
+			c.Fail(sig("other-connection-delayed"), nil, nil, "the handler of connection 0 is blocked writing a %d-byte answer to a peer that does not read: connection %d has had %d of %d requests answered at quiescence (%d stray bytes)", size, i, len(msgs), per, len(rest))
+			return
+		}
+	}
+	c.Event("handler_invocations", (K-1)*per+1)
+	c.Event("blocked_handler_scenarios", 1)
+}
+
 // c08Short: the scenario without the per-connection message counts (long for many connections)
 func c08Short(sc c08Scenario) string {
 	n := sc.perConn
@@ -593,6 +650,14 @@ func TestC08(t *testing.T) {
 		leak := runBubbleWD(t, rec, c, 60*time.Second, func() { runC08SlowHandlers(c, ctx, K, n, rt, notify) })
 		if leak != "" && !c.Failed() {
 			c.Fail(ev.Sig{"op": "bubble-leak", "suite": "slow-handlers-read-timeout"}, nil, nil, "goroutines left blocked after the scenario ended: %s", leak)
+		}
+	})
+	rec.Suite("stalled-writer", 12, func(c *ev.Case) {
+		K, size := 2+c.I%3, []int{100, 1500, 5000, 70000}[(c.I/3)%4]
+		c.Class("stalled-writer/K=%d/answer-bytes=%d/mux=%v", K, size, c.I%2 == 0)
+		leak := runBubbleWD(t, rec, c, 60*time.Second, func() { runC08StalledWriter(c, ctx, K, 3, size, c.I%2 == 0) })
+		if leak != "" && !c.Failed() {
+			c.Fail(ev.Sig{"op": "bubble-leak", "suite": "stalled-writer"}, nil, nil, "goroutines left blocked after the scenario ended: %s", leak)
 		}
 	})
 	rec.Suite("many-handshakes", 8, func(c *ev.Case) {
